@@ -11,6 +11,8 @@ CONSTANTS
   Shapes = {"str"}
   FixSets = {{}}
   Causes = {"peer"}
+  Lookups = FALSE
+  WritingLookup = FALSE
   Emit = FALSE
   Only = "all"
 INIT Init
